@@ -57,6 +57,18 @@ add(
     "DESIGN.md 6/C19",
 )
 
+add(
+    "C03",
+    "exploration",
+    "Generated scheduler arguments (rung systems, brackets shared/per-bracket, mode, RUSH) and metric curves, every tape-chosen "
+    "interleaving of up to 4 concurrent trials through the protocol driver (the harness plays the Tuner); decisions and rung "
+    "contents compared after every event with a reference model written from the doc-strings (numpy.quantile, q=r_j/r_{j+1}). "
+    "~3e4 histories quick, 6e5 thorough.",
+    "trial->bracket map and rung snapshots are read from the scheduler; ties within 4 ulp of the data scale may go either way, as the property states.",
+    "property-based testing (Hypothesis choice tape, stateful protocol driver): differential against a reference model",
+    "DESIGN.md 6/C03",
+)
+
 NOT_YET = {}
 
 ALL = [f"C{i:02d}" for i in range(1, 21)]
